@@ -287,8 +287,13 @@ type logSink struct {
 	onLn  func(node, line string)
 }
 
+var echoLogs = os.Getenv("VERIF_LOGS") != ""
+
 func (s *logSink) Write(p []byte) (int, error) {
 	line := string(p)
+	if echoLogs {
+		fmt.Fprintf(os.Stderr, "LOG %s %s %s", time.Now().UTC().Format("15:04:05.000"), s.node, line)
+	}
 	for _, pat := range logPatterns {
 		if strings.Contains(line, pat) {
 			s.rec.Count("log:"+pat, 1)
